@@ -128,3 +128,67 @@ Print Assumptions C05_returns.
 Print Assumptions C05_resp_pairs.
 Print Assumptions C05_legacy_refuted.
 Print Assumptions C05_tie_sound.
+
+(* ------------------------------------------------------------------ composed liveness (run-existence) *)
+From V Require Import Proofs.ConnC15 Proofs.ConnLive.
+
+(* "Every Submit call returns, without error, the PDU whose sequence number
+   equals that of its own request", as the existence of a run of the model.
+   From ANY state reachable under the hypotheses of the property, for ANY call c
+   of Submit in progress — wherever it is: about to register its waiter, about to
+   hand its frame to the transport, inside the transport Write, in its select,
+   on its way out — provided that
+     Done() is open and c's own context is not done   (else it returns an error: C15),
+     c's frame is one Marshal produced and the transport is not closed,
+     the peer has sent c's response (it is still readable, or Watch took it already),
+     among the frames readable now none makes Watch give up ([IFatal]: bad length,
+       unknown id, truncated frame — however many unsolicited PDUs, responses to
+       other calls and undecodable frames with a registered id precede c's response),
+   there is a finite run made ONLY of c's own steps ([sub_event]: Register,
+   WireWrite, WriteReturn — the transport letting the Write return —, WakeResp,
+   Unregister, and CloseFinish when c is the Submit inside Close), of the steps of
+   Watch, and of an application that receives what Watch offers it ([watch_event]:
+   WatchLoop, WatchStep, AppRecv), after which c has returned [ROk m] with the
+   sequence number of its own request.  No other caller, no event of the peer,
+   no timer is needed.  (That the Go scheduler runs these enabled steps is
+   outside the model.) *)
+Theorem C05_live : forall s c,
+  ereach s -> sub s c -> done s = false -> c_ctx (callers s c) = false ->
+  is_ok (c_frame (callers s c)) = true -> transport_closed s = false ->
+  answered s (c_seq (callers s c)) -> ~ In IFatal (inbound s) ->
+  exists t s' m, run fixed s t = Some s' /\ Forall (live_event c) t /\
+                 c_pc (callers s' c) = PReturned (ROk m) /\ snd m = c_seq (callers s c).
+Proof. exact submit_live. Qed.
+
+(* The same from a state where the peer has NOT answered yet and the inbound
+   stream has not ended: c's own steps take its request to the transport (t1),
+   the peer sends the response — exactly one event of the peer, any PDU p that
+   carries c's sequence number; it lies within the hypotheses of the property —,
+   then steps of c, Watch and the application (t2) lead c to its return. *)
+Theorem C05_live_unanswered : forall s c p,
+  ereach s -> sub s c -> done s = false -> c_ctx (callers s c) = false ->
+  is_ok (c_frame (callers s c)) = true -> transport_closed s = false ->
+  ~ answered s (c_seq (callers s c)) -> in_end s = false -> ~ In IFatal (inbound s) ->
+  snd p = c_seq (callers s c) ->
+  exists t1 t2 s' m, run fixed s (t1 ++ PeerFrame (IPdu p) :: t2) = Some s' /\
+                 Forall (sub_event c) t1 /\ Forall (live_event c) t2 /\
+                 c_pc (callers s' c) = PReturned (ROk m) /\ snd m = c_seq (callers s c).
+Proof. exact submit_live_unanswered. Qed.
+
+(* Non-vacuity of both: a reachable state within the hypotheses where call 1 is
+   inside the transport Write and its response is readable behind an unsolicited
+   PDU and an undecodable frame (hypotheses of C05_live), and call 0 has
+   registered but not yet sent, unanswered (hypotheses of C05_live_unanswered). *)
+Example C05_live_example :
+  exists s, ereach s /\ sub s 1%nat /\ done s = false /\ c_ctx (callers s 1%nat) = false /\
+            is_ok (c_frame (callers s 1%nat)) = true /\ transport_closed s = false /\
+            answered s (c_seq (callers s 1%nat)) /\ ~ In IFatal (inbound s) /\
+            c_pc (callers s 1%nat) = PWriting /\ wpc s = WReading /\
+            inbound s = [IPdu (5, 99%Z); IBad 3%Z; IPdu (2147483652, 8%Z)] /\
+            sub s 0%nat /\ ~ answered s (c_seq (callers s 0%nat)) /\ in_end s = false /\
+            c_pc (callers s 0%nat) = PRegistered.
+Proof. exact submit_live_example. Qed.
+
+Print Assumptions C05_live.
+Print Assumptions C05_live_unanswered.
+Print Assumptions C05_live_example.
